@@ -175,7 +175,7 @@ Proof.
   exists M. vm_compute in E. inversion E; subst M. split; [reflexivity|].
   split.
   { split; [vm_compute; repeat constructor; simpl; intuition discriminate|].
-    simpl. split; [lia|]. eexists. eexists. eexists. split; [reflexivity|vm_compute; reflexivity]. }
+    simpl. eexists. split; [vm_compute; reflexivity|left; lia]. }
   split; [split; [vm_compute; reflexivity|split; [reflexivity|]]|].
   { vm_compute. repeat constructor; simpl; intuition discriminate. }
   split; [eexists; eexists; vm_compute; reflexivity|].
